@@ -537,10 +537,62 @@ pub fn socket_stage(ctx: &Ctx, reps: &[(String, Vec<u8>)]) {
     ctx.merge(t);
     ctx.space("socket-level replay: datagram representatives sent over loopback multicast to a running SimpleMdnsResponder and sync ServiceDiscovery, each followed by probe queries that must be answered and by get_known_services()", sent, "complete for the representative set");
     ctx.set_extra("socket_stage", json!({"ran": true, "datagrams_sent": sent}));
+    // the application keeps using the service (announce, get_known_services) while responses
+    // arrive: neither side may wedge the other. Free-running threads: the interleavings are
+    // whatever the OS scheduler produces, they are not enumerated.
+    {
+        const CALLS: u64 = 1500;
+        let progress = std::sync::Arc::new(std::sync::atomic::AtomicU64::new(0));
+        let p2 = progress.clone();
+        let app = std::thread::spawn(move || {
+            for i in 0..CALLS {
+                disc.announce(i % 16 == 0);
+                let _ = disc.get_known_services().len();
+                p2.fetch_add(1, std::sync::atomic::Ordering::SeqCst);
+            }
+            disc
+        });
+        let traffic = [benign_response(), benign_query()];
+        let mut last = (0u64, std::time::Instant::now());
+        let mut wedged = false;
+        let mut k = 0usize;
+        loop {
+            let now = progress.load(std::sync::atomic::Ordering::SeqCst);
+            if now >= CALLS {
+                break;
+            }
+            if now != last.0 {
+                last = (now, std::time::Instant::now());
+            } else if last.1.elapsed() > Duration::from_secs(4) {
+                wedged = true;
+                break;
+            }
+            let _ = net.send(&traffic[k % 2]);
+            k += 1;
+            std::thread::sleep(Duration::from_micros(300));
+        }
+        let mut t = Tally::default();
+        t.evals += 1;
+        t.nontrivial += 1;
+        t.transitions += progress.load(std::sync::atomic::Ordering::SeqCst);
+        if wedged {
+            t.outcome("socket-application-wedged");
+            ctx.violation(finding(
+                "C14|socket|application-thread-wedged",
+                format!("an application thread calling announce() and get_known_services() on a running sync ServiceDiscovery stopped making progress after {} of {} rounds while ordinary responses were arriving (no progress for 4 s): the service and its store are wedged", progress.load(std::sync::atomic::Ordering::SeqCst), CALLS),
+                json!({"kind": "socket-race", "async": false}),
+            ));
+        } else {
+            let _ = app.join();
+            t.outcome("socket-alive");
+        }
+        ctx.merge(t);
+        ctx.space("application thread against the receive loop (sync ServiceDiscovery): 1500 rounds of announce() + get_known_services() while responses and queries arrive every 0.3 ms; free-running threads, interleavings not enumerated", CALLS, "one run under the OS scheduler (not exhaustive over interleavings)");
+    }
 }
 
 pub fn run(ctx: &Ctx) {
-    let thorough = ctx.tier == crate::engine::Tier::Thorough;
+    let thorough = ctx.eff_tier() == crate::engine::Tier::Thorough;
     ctx.set_rule("datagram alphabet: every buffer of length <= L over {00,80,ff}; every cut and byte perturbation of a benign query, a benign announcement and a hostile-name response; queries and responses carrying each hostile label class (non-UTF-8, NUL, dot, backslash, 63 bytes, 255-byte name) under and outside the watched service, plain and compressed; 9000-byte datagrams; benign traffic. Each datagram x 3 store kinds (empty, as ServiceDiscovery::new builds it, plus a cached peer) x {fresh, after benign traffic} goes through the responder, sync discovery (with / without channel), async ingest and one-shot resolver pipelines composed from the real functions, under the real RwLock; afterwards the lock must be unpoisoned, get_known_services computable, a benign query answered exactly as by an untouched store, a benign announcement discovered, every reply parseable. Representatives are replayed against running services over loopback multicast. non-trivial = the datagram parses (the handlers run past the parser)");
     ctx.assume("the pipelines mirror the receive-loop bodies of simple_responder.rs / service_discovery.rs / oneshot_resolver.rs (sync and async); the loops themselves are exercised by the socket stage on a representative set");
     {
@@ -557,7 +609,7 @@ pub fn run(ctx: &Ctx) {
             std::process::exit(1);
         });
     }
-    let l = ctx.tier.pick(7usize, 10usize);
+    let l = ctx.eff_tier().pick(7usize, 10usize);
     let mut data: Vec<Vec<u8>> = Vec::new();
     let mut b = Vec::new();
     crate::engine::for_each_string_upto(&[0x00, 0x80, 0xff], l, &mut b, &mut |x| data.push(x.to_vec()));
@@ -788,7 +840,57 @@ pub fn socket_stage_async(ctx: &Ctx, reps: &[(String, Vec<u8>)]) {
     ctx.merge(t);
     ctx.space("socket-level replay (tokio services): the same representatives sent to a running async SimpleMdnsResponder and async ServiceDiscovery, each followed by probe queries that must be answered and by get_known_services()", sent, "complete for the representative set");
     ctx.set_extra("socket_stage_async", json!({"ran": true, "datagrams_sent": sent}));
-    drop(disc);
+    #[allow(unused_variables)]
+    {
+        const CALLS: u64 = 600;
+        let progress = std::sync::Arc::new(std::sync::atomic::AtomicU64::new(0));
+        let p2 = progress.clone();
+        let mut disc = disc;
+        let app = rt.spawn(async move {
+            for i in 0..CALLS {
+                let _ = disc.announce(i % 16 == 0).await;
+                let _ = disc.get_known_services().await.len();
+                p2.fetch_add(1, std::sync::atomic::Ordering::SeqCst);
+            }
+            disc
+        });
+        let traffic = [benign_response(), benign_query()];
+        let mut last = (0u64, std::time::Instant::now());
+        let mut wedged = false;
+        let mut k = 0usize;
+        loop {
+            let now = progress.load(std::sync::atomic::Ordering::SeqCst);
+            if now >= CALLS {
+                break;
+            }
+            if now != last.0 {
+                last = (now, std::time::Instant::now());
+            } else if last.1.elapsed() > Duration::from_secs(4) {
+                wedged = true;
+                break;
+            }
+            let _ = net.send(&traffic[k % 2]);
+            k += 1;
+            std::thread::sleep(Duration::from_micros(300));
+        }
+        let mut t = Tally::default();
+        t.evals += 1;
+        t.nontrivial += 1;
+        t.transitions += progress.load(std::sync::atomic::Ordering::SeqCst);
+        if wedged {
+            t.outcome("socket-async-application-wedged");
+            ctx.violation(finding(
+                "C14|socket-async|application-task-wedged",
+                format!("an application task calling announce() and get_known_services() on a running tokio ServiceDiscovery stopped making progress after {} of {} rounds while ordinary responses were arriving (no progress for 4 s)", progress.load(std::sync::atomic::Ordering::SeqCst), CALLS),
+                json!({"kind": "socket-race", "async": true}),
+            ));
+        } else {
+            let _ = rt.block_on(app);
+            t.outcome("socket-async-alive");
+        }
+        ctx.merge(t);
+        ctx.space("application task against the receive task (tokio ServiceDiscovery): 600 rounds of announce() + get_known_services() while responses and queries arrive every 0.3 ms; free-running, interleavings not enumerated", CALLS, "one run under the OS / tokio schedulers (not exhaustive over interleavings)");
+    }
     rt.shutdown_timeout(Duration::from_millis(200));
 }
 
